@@ -102,7 +102,7 @@ Definition vec_unscale (adder scaler : option sv) (x : list Q) : list Q :=
 
 (* ------------------------------------------------------------------ bounds *)
 
-Definition INF_BOUND : Q := 1000000000000000000000000000000 # 1.     (* 1e30 *)
+Definition INF_BOUND : Q := 1000000000000000019884624838656 # 1.     (* the binary64 value of 1e30 *)
 
 Definition is_inf (is_lower : bool) (v : Q) : bool :=
   if is_lower then Qle_bool v (- INF_BOUND) else Qle_bool INF_BOUND v.
